@@ -111,7 +111,8 @@ def _mk(t):
 
 class SymReal:
     __slots__ = ('t',)
-    # NOTE: deliberately no __float__, __array__, __array_ufunc__, __array_priority__.
+    # NOTE: deliberately no __array__, __array_ufunc__, __array_priority__; __float__ exists only as
+    # identity for explicit method calls (see below), float(x) still fails.
 
     def __init__(self, t):
         self.t = t
@@ -160,6 +161,14 @@ class SymReal:
     def __rtruediv__(self, o): return self._bin(o, '/', True)
     def __neg__(self): return _mk(-self.t)
     def __pos__(self): return self
+
+    def __float__(self):
+        # Only reachable through an *explicit* `x.__float__()` call in the code under check
+        # (base/dictionary_view.py: `self.input(key, value).__float__()`), where it means
+        # "identity on reals" (A-real).  builtin float(x) / numpy dtype=float conversion still
+        # raise TypeError ("__float__ returned non-float"), exactly as without this method;
+        # numpy dtype discovery does not consult __float__ (object arrays stay object arrays).
+        return self
 
     def __abs__(self):
         return _mk(z3.If(self.t >= 0, self.t, -self.t))
